@@ -117,6 +117,9 @@ func (l *Lexer) NextToken() *token.Token {
 		}
 		return token.Intern(token.STRING, str)
 	case 0:
+		if !l.endOfInput(ch) { // a NUL byte inside the input is not the end of it
+			return token.Intern(token.ILLEGAL, string(ch))
+		}
 		return l.EOLEOF()
 	case '.':
 		if nextChar == '.' { // DOTDOT
@@ -175,6 +178,12 @@ func (l *Lexer) readChar() byte {
 	ch := l.peekChar()
 	l.pos++
 	return ch
+}
+
+// endOfInput tells, for the byte ch just returned by readChar, the 0 standing for the end of the
+// input from a NUL byte present in the input.
+func (l *Lexer) endOfInput(ch byte) bool {
+	return ch == 0 && l.pos > len(l.input)
 }
 
 func hexCharToHex(ch byte) byte {
@@ -241,7 +250,7 @@ func (l *Lexer) readString(sep byte) (string, bool) {
 			}
 		case ch == sep:
 			return buf.String(), true
-		case ch == 0:
+		case l.endOfInput(ch):
 			return buf.String(), false
 		}
 		buf.WriteByte(ch)
@@ -272,7 +281,7 @@ func notEOL(ch byte) bool {
 
 func (l *Lexer) readLineComment() string {
 	pos := l.pos - 1
-	for notEOL(l.peekChar()) {
+	for notEOL(l.peekChar()) || l.pos < len(l.input) && l.peekChar() == 0 { // up to newline or end of input
 		l.pos++
 	}
 	return strings.TrimSpace(string(l.input[pos:l.pos]))
@@ -286,10 +295,10 @@ func (l *Lexer) readBlockComment() string {
 	pos1 := l.pos - 1
 	l.pos++
 	ch := l.readChar()
-	for ch != 0 && !l.endBlockComment(ch) {
+	for !l.endOfInput(ch) && !l.endBlockComment(ch) {
 		ch = l.readChar()
 	}
-	if ch == 0 {
+	if l.endOfInput(ch) {
 		l.pos--
 	} else {
 		l.pos++
